@@ -71,6 +71,37 @@ WRAPPER = os.path.join(common.VERIF, 'harness', 'helper_wrapper', 'python')
 SCRATCH = '/tmp/scratch-c14c12'
 DEATHS = ('before_send', 'after_send', 'trunc', 'raises_fatal')
 PHASES = DEATHS + ('raises',)
+# "the helper raises": the class of the exception is part of the fault.  What decides whether the helper
+# lives is CPython's class hierarchy, not jedi: Exception subclasses are reported back by Listener.listen
+# (phase `raises`), every other BaseException leaves the request loop and ends the process (`raises_fatal`).
+EXC_SOFT = ('RuntimeError', 'ValueError', 'KeyError', 'OSError', 'ZeroDivisionError', 'MemoryError',
+            'NotImplementedError', 'UnicodeError', 'EOFError', 'BrokenPipeError', 'Exception')
+EXC_FATAL = (('KeyboardInterrupt', None), ('SystemExit', 3), ('SystemExit', None), ('SystemExit', 0),
+             ('SystemExit', 'quit'), ('GeneratorExit', None), ('CancelledError', None), ('VerifFatal', None),
+             ('BaseException', None))
+
+
+def is_exception_subclass(name):
+    """CPython fact, independent of jedi: is the class called `name` a subclass of Exception"""
+    import asyncio
+    import builtins
+    cls = {'CancelledError': asyncio.CancelledError, 'VerifFatal': BaseException}.get(name) \
+        or getattr(builtins, name, None)
+    if cls is None:
+        return None
+    return issubclass(cls, Exception)
+
+
+def with_exc(rng, plan):
+    """adds the exception class to a raises / raises_fatal plan"""
+    if plan['phase'] == 'raises':
+        plan['exc'] = rng.choice(EXC_SOFT)
+    elif plan['phase'] == 'raises_fatal':
+        name, arg = rng.choice(EXC_FATAL)
+        plan['exc'] = name
+        if name == 'SystemExit' and arg is not None:
+            plan['arg'] = arg
+    return plan
 
 SCEN = [
     ('complete', 'import math\nmath.sq'),
@@ -615,8 +646,8 @@ def model_request(res):
             item = {'h': pids.index(e['pid']), 'k': e['k'], 'phase': e['phase'], 'cls': ''}
             if e['phase'] == 'trunc':
                 item['cls'] = trunc_class(e['prefix'])
-            if e['phase'] == 'raises':
-                item['cls'] = 'RuntimeError'
+            if e['phase'] in ('raises', 'raises_fatal'):
+                item['cls'] = e.get('exc') or ('RuntimeError' if e['phase'] == 'raises' else 'KeyboardInterrupt')
             plan.append(item)
         elif e.get('ev') == 'req' and e.get('exc') and e.get('fn') and e['pid'] in pids:
             # the requested function raised inside the surviving helper (jedi's ordinary control flow);
@@ -751,16 +782,25 @@ def oracle_case(ctx, case, res, expected):
             continue
         failures.append(q['cls'])
         msgs.append(q['msg'][:200])
-        injected = q['cls'] == 'RuntimeError' and 'verif: injected' in q['msg']
+        # "the helper raises" an Exception (CPython's hierarchy, not jedi's except clause, says which classes
+        # these are): the helper reports it and lives, jedi re-raises the remote exception by design.  Any other
+        # BaseException ends the helper: that is a death, and only InternalError may come out of the query.
+        injected = 'verif: injected' in q['msg'] and any(
+            f['phase'] == 'raises' and (f.get('exc') or 'RuntimeError') == q['cls']
+            and is_exception_subclass(q['cls']) for f in q['faults'])
         if q['cls'] == 'HANG':
             ctx.fail('oracle', 'query hangs after a helper fault', dict(case_d, symptom='hang'),
                      observed=q, how=how)
         elif injected:
             pass     # the helper raised, it did not die: the remote exception is what jedi documents
         elif q['cls'] != 'InternalError':
-            ctx.fail('oracle', 'a helper death surfaces as something else than InternalError',
+            fatal_exc = [f.get('exc') or 'KeyboardInterrupt' for f in q['faults'] if f['phase'] == 'raises_fatal']
+            ctx.fail('oracle', 'a helper death surfaces as something else than InternalError'
+                     + (': the %s raised inside the helper while it served a request comes out of Script.%s() '
+                        'in the user\'s process' % (q['cls'], SCEN[qi][0]) if q['cls'] in fatal_exc else ''),
                      dict(case_d, symptom='class'),
-                     expected='InternalError', observed={'cls': q['cls'], 'msg': q['msg']}, how=how)
+                     expected='InternalError', observed={'cls': q['cls'], 'msg': q['msg'],
+                                                         'raised_in_helper': fatal_exc}, how=how)
         if q['cls'] == 'InternalError' and q['zombies_after']:
             ctx.fail('oracle', 'dead helper not reaped after the failing query (zombie)',
                      dict(case_d, symptom='zombie'),
@@ -778,7 +818,7 @@ def oracle_case(ctx, case, res, expected):
     if res['fds'][1] > res['fds'][0]:
         ctx.fail('oracle', 'file descriptors leaked after the environment was dropped', base,
                  observed={'before': res['fds'][0], 'after': res['fds'][1]}, how=how)
-    bucket = '+'.join(sorted(f['phase'] + ('@0' if f['k'] == 0 else '')
+    bucket = '+'.join(sorted(f['phase'] + (':' + f['exc'] if f.get('exc') else '') + ('@0' if f['k'] == 0 else '')
                              for q in res['queries'] for f in q['faults'])) or 'no-fault-hit'
     if case.get('kills'):
         bucket += '/sigkill=%d' % sum(1 for q in res['queries'] for f in q['faults'] if f.get('by'))
@@ -808,14 +848,14 @@ def gen_cases(ctx, nreqs):
             ph = PHASES[i % len(PHASES)]
             if ph == 'before_send' and k0 == 0:
                 k0 = 1
-            starts = [{'k': k0, 'phase': ph, 'n': rng.choice([1, 2, 3, 4, 11, 12, 20, 40])}]
+            starts = [with_exc(rng, {'k': k0, 'phase': ph, 'n': rng.choice([1, 2, 3, 4, 11, 12, 20, 40])})]
             r = rng.random()
             if r < 0.45:
                 m = 1 if r < 0.25 else 2
                 for _ in range(m):
                     ph2 = rng.choice(PHASES)
                     k2 = rng.randint(1 if ph2 == 'before_send' else 0, 6)
-                    starts.append({'k': k2, 'phase': ph2, 'n': rng.choice([1, 2, 4, 11, 30])})
+                    starts.append(with_exc(rng, {'k': k2, 'phase': ph2, 'n': rng.choice([1, 2, 4, 11, 30])}))
             cases.append({'id': 'g%d' % i, 'queries': qs, 'starts': starts})
     else:
         i = 0
@@ -826,13 +866,50 @@ def gen_cases(ctx, nreqs):
                     if ph == 'before_send' and k == 0:
                         continue
                     ns = [1, 2, 4, 11, 12, 40] if ph == 'trunc' else [4]
-                    starts = [{'k': k, 'phase': ph, 'n': rng.choice(ns)}]
+                    starts = [with_exc(rng, {'k': k, 'phase': ph, 'n': rng.choice(ns)})]
                     for _ in range(rng.choice([0, 0, 1, 2])):
                         ph2 = rng.choice(PHASES)
-                        starts.append({'k': rng.randint(1 if ph2 == 'before_send' else 0, 6), 'phase': ph2,
-                                       'n': rng.choice([1, 2, 4, 11, 30])})
+                        starts.append(with_exc(rng, {'k': rng.randint(1 if ph2 == 'before_send' else 0, 6),
+                                                     'phase': ph2, 'n': rng.choice([1, 2, 4, 11, 30])}))
                     cases.append({'id': 't%d' % i, 'queries': [t, f1, f2, t], 'starts': starts})
                     i += 1
+    # "the helper raises", every class of exception: one case per BaseException class that is no Exception
+    # (random request index within the first two queries, random queries, sometimes up to 3 consecutive
+    # ones: the replacement helpers raise as well) and - thorough: every request index of every scenario
+    fatal = list(EXC_FATAL)
+    soft = list(EXC_SOFT)
+    rng.shuffle(soft)
+    def exc_plan(k, name, arg=None):
+        pl = {'k': k, 'phase': 'raises' if is_exception_subclass(name) else 'raises_fatal', 'exc': name}
+        if arg is not None:
+            pl['arg'] = arg
+        return pl
+    if ctx.quick:
+        for i, (name, arg) in enumerate(fatal):
+            qs = [rng.choice(allq) for _ in range(3)]
+            total = 2 + sum(nreqs[q] for q in qs[:2])
+            starts = [exc_plan(rng.randint(1, max(1, total - 1)), name, arg)]
+            for _ in range(rng.choice([0, 0, 1, 2])):
+                n2, a2 = rng.choice(fatal)
+                starts.append(exc_plan(rng.randint(0, 5), n2, a2))
+            cases.append({'id': 'x%d' % i, 'queries': qs, 'starts': starts})
+        for i, name in enumerate(soft[:4]):
+            qs = [rng.choice(allq) for _ in range(3)]
+            total = 2 + sum(nreqs[q] for q in qs[:2])
+            cases.append({'id': 'xs%d' % i, 'queries': qs,
+                          'starts': [exc_plan(rng.randint(1, max(1, total - 1)), name)]})
+    else:
+        i = 0
+        for t in allq:
+            for k in range(0, 2 + nreqs[t] + 1):
+                name, arg = fatal[i % len(fatal)]
+                n2, a2 = fatal[(i // len(fatal) + 3 * i + 1) % len(fatal)]
+                cases.append({'id': 'x%d' % i, 'queries': [t, rng.choice(allq), t],
+                              'starts': [exc_plan(k, name, arg)] + ([exc_plan(rng.randint(0, 4), n2, a2)]
+                                                                    if i % 3 == 0 else [])})
+                cases.append({'id': 'xs%d' % i, 'queries': [t, rng.choice(allq), t],
+                              'starts': [exc_plan(k, soft[i % len(soft)])]})
+                i += 1
     # fixed regression cases (DESIGN section 6, F13, and the handshake case)
     cases.append({'id': 'three', 'queries': [0, 1, 2, 3, 4],
                   'starts': [{'k': 4, 'phase': 'after_send'}, {'k': 2, 'phase': 'before_send'},
@@ -889,7 +966,7 @@ def gen_cases(ctx, nreqs):
         steps += [P('query', q=rng.choice(allq)), P('query', q=rng.choice(allq))]
         starts = []
         if rng.random() < 0.5:
-            starts = [{'k': rng.randint(2, 12), 'phase': 'raises'}]
+            starts = [with_exc(rng, {'k': rng.randint(2, 12), 'phase': 'raises'})]
         progs.append(('p%d' % i, starts, steps))
     for pid_, starts, steps in progs:
         cases.append({'id': pid_, 'queries': [st['q'] for st in steps if 'q' in st], 'starts': starts,
@@ -901,8 +978,8 @@ def gen_cases(ctx, nreqs):
         starts = []
         for _ in range(rng.choice([0, 0, 1, 2])):
             ph2 = rng.choice(PHASES)
-            starts.append({'k': rng.randint(1 if ph2 == 'before_send' else 0, 8), 'phase': ph2,
-                           'n': rng.choice([1, 2, 4, 11, 30])})
+            starts.append(with_exc(rng, {'k': rng.randint(1 if ph2 == 'before_send' else 0, 8), 'phase': ph2,
+                                         'n': rng.choice([1, 2, 4, 11, 30])}))
         cases.append({'id': 'k%d' % i, 'queries': qs, 'starts': starts, 'kills': kills})
     return cases
 
